@@ -359,8 +359,16 @@ func pushIssues(p *pipe, pos int, c chk, l *logger, v any, pl *core.ParsePayload
 	}
 }
 
+// intSchema: the methods buildInt uses, shared by *ZodIntegerTyped[int, int] and *ZodIntegerTyped[int, *int].
 func buildInt(p *pipe, l *logger) core.ZodType[int] {
-	s := gozod.Int()
+	return buildIntOn(p, l, gozod.Int(tyMsg(p.tag)), func(v int, f func(any)) { f(v) })
+}
+
+func buildIntPtr(p *pipe, l *logger) core.ZodType[*int] {
+	return buildIntOn(p, l, gozod.IntPtr(tyMsg(p.tag)), func(v *int, f func(any)) { f(v) })
+}
+
+func buildIntOn[R any](p *pipe, l *logger, s *gozod.ZodInteger[int, R], _ func(R, func(any))) *gozod.ZodInteger[int, R] {
 	for pos, c := range p.cs {
 		pos, c := pos, c
 		m := msg(p.tag, pos)
@@ -399,14 +407,14 @@ func buildInt(p *pipe, l *logger) core.ZodType[int] {
 				s = s.Refine(func(v int) bool { l.addU("c", p.tag, pos, v); return customPredU(c.k, v) }, m)
 			}
 		case "chk":
-			s = s.Check(func(v int, pl *core.ParsePayload) { pushIssues(p, pos, c, l, v, pl) }, customParams(p, pos, c, l, false))
+			s = s.Check(func(v R, pl *core.ParsePayload) { pushIssues(p, pos, c, l, any(v), pl) }, customParams(p, pos, c, l, false))
 		}
 	}
 	return s
 }
 
 func buildSlice(p *pipe, l *logger) core.ZodType[[]int] {
-	s := gozod.Slice[int](gozod.Int())
+	s := gozod.Slice[int](gozod.Int(), tyMsg(p.tag))
 	for pos, c := range p.cs {
 		pos, c := pos, c
 		m := msg(p.tag, pos)
@@ -431,7 +439,7 @@ func buildSlice(p *pipe, l *logger) core.ZodType[[]int] {
 }
 
 func buildObj(p *pipe, l *logger) core.ZodType[map[string]any] {
-	s := gozod.Object(core.ObjectSchema{"a": gozod.Int(), "b": gozod.Int()})
+	s := gozod.Object(core.ObjectSchema{"a": gozod.Int(), "b": gozod.Int()}, tyMsg(p.tag))
 	for pos, c := range p.cs {
 		pos, c := pos, c
 		prev := s
@@ -457,16 +465,19 @@ func buildU(p *pipe, l *logger) core.ZodType[any] {
 	case "B":
 		switch p.vk {
 		case "i":
-			return anyAdapter[int]{buildInt(p, l)}
+			if p.ptr {
+				return anyAdapter[*int]{buildIntPtr(p, l), p.tag}
+			}
+			return anyAdapter[int]{buildInt(p, l), p.tag}
 		case "l":
-			return anyAdapter[[]int]{buildSlice(p, l)}
+			return anyAdapter[[]int]{buildSlice(p, l), p.tag}
 		case "o":
-			return anyAdapter[map[string]any]{buildObj(p, l)}
+			return anyAdapter[map[string]any]{buildObj(p, l), p.tag}
 		}
 		if p.ptr {
-			return anyAdapter[*string]{buildBasePtr(p, l)}
+			return anyAdapter[*string]{buildBasePtr(p, l), p.tag}
 		}
-		return anyAdapter[string]{buildBaseVal(p, l)}
+		return anyAdapter[string]{buildBaseVal(p, l), p.tag}
 	case "T":
 		src := buildU(p.a, l)
 		return core.NewZodTransform[any, any](src, func(in any, _ *core.RefinementContext) (any, error) {
@@ -625,7 +636,7 @@ func genPipeU(r *hx.Rng, depth int, kind string, in any, st *genState) (*pipe, s
 		return &pipe{kind: "P", a: a, b: b}, kb
 	}
 	p := &pipe{kind: "B", tag: st.tag, vk: kind, rng: r}
-	if kind == "s" {
+	if kind == "s" || kind == "i" {
 		p.ptr = r.Chance(25)
 	}
 	st.tag++
@@ -634,36 +645,6 @@ func genPipeU(r *hx.Rng, depth int, kind string, in any, st *genState) (*pipe, s
 		p.cs = append(p.cs, genCheckU(r, kind, in))
 	}
 	return p, kind
-}
-
-func hasStringChk(p *pipe) bool {
-	switch p.kind {
-	case "B":
-		if p.vk != "s" {
-			return false
-		}
-		for _, c := range p.cs {
-			if c.kind == "chk" {
-				return true
-			}
-		}
-		return false
-	case "T":
-		return hasStringChk(p.a)
-	}
-	return hasStringChk(p.a) || hasStringChk(p.b)
-}
-
-func clearPtr(p *pipe) {
-	switch p.kind {
-	case "B":
-		p.ptr = false
-	case "T":
-		clearPtr(p.a)
-	default:
-		clearPtr(p.a)
-		clearPtr(p.b)
-	}
 }
 
 func observeU(p *pipe, input any) string {
@@ -696,20 +677,25 @@ func runUniversal(o *hx.Out, r *hx.Rng, n int) {
 		p, _ := genPipeU(r, depth, kind, in, st)
 		var input any = in
 		star := ""
-		// A Check(fn) wrapper on a string schema meets a pointer payload only in validatePointer's extra pass,
-		// where it is neither a built-in (issue) nor a refinement (false): keep those lines free of pointers.
-		noPtr := hasStringChk(p)
-		if noPtr {
-			clearPtr(p)
-		}
-		if s, ok := in.(string); ok && !noPtr && r.Chance(35) {
-			v := s
-			input = &v
+		// (the class of every check kind on a raw pointer payload is read from Gen/RawClass.lean, Check(fn) of the
+		// string types included: no line is kept free of pointers any more)
+		noPtr := false
+		if !noPtr && r.Chance(35) {
+			switch v := in.(type) {
+			case string:
+				input = &v
+			case int:
+				input = &v
+			case []int:
+				input = &v
+			case map[string]any:
+				input = &v
+			}
 			star = "*"
 		}
 		obs := observeU(p, input)
 		o.Emit(fmt.Sprintf("c10u %s | %s%s #%s", p.tokensU(), encU(in), star, p.howU()), obs)
-		o.Count("u:kind:" + kind)
+		o.Count("u:kind:" + kind + star)
 		o.Count("u:depth:" + strconv.Itoa(depth))
 		o.Count("u:outcome:" + strings.SplitN(obs, " ", 2)[0])
 	}
